@@ -74,6 +74,107 @@ theorem no_wedge (cfg : Cfg) (ops : List Op) (h : (run cfg ops).circ.st = .halfO
   have h3 := hs.circ.hoSucc h
   omega
 
+/-! ## leftovers of earlier episodes, operator overrides, tear-down of cancelled trials -/
+
+/-- Every slot that is taken is taken by a trial of the CURRENT episode — one still in flight, or one
+that succeeded. Trials left over from earlier episodes, whatever ended those (a failing trial,
+`force_open()`, `force_closed()`, `reset()`), hold none; in particular with no success yet and all
+`permitted` slots taken there are `permitted` live trials of this very episode. Every history. -/
+theorem slots_belong_to_current_episode (cfg : Cfg) (ops : List Op) (h : (run cfg ops).circ.st = .halfOpen) :
+    (run cfg ops).circ.hoAdmitted
+      = trialsOf (run cfg ops).circ.episode (run cfg ops).running + (run cfg ops).circ.ownSucc :=
+  (sinv_reachable cfg ops).trials h
+
+/-- No call in flight carries an episode number from the future: the number a leftover trial carries
+is never handed out again. -/
+theorem episode_numbers_are_past (cfg : Cfg) (ops : List Op) (r : Caller) (hr : r ∈ (run cfg ops).running)
+    (e : Nat) (he : r.ep = some e) : e ≤ (run cfg ops).circ.episode :=
+  (sinv_reachable cfg ops).eps r hr e he
+
+/-- The operator's overrides never rewind the episode counter: `force_open()`, `force_closed()` and
+`reset()` move it forward when they change the state and leave it alone when they do not. -/
+theorem overrides_never_rewind (c : Circuit) (now : Nat) (tgt : St) :
+    c.episode ≤ (transitionTo c tgt now).1.episode ∧
+    (c.st ≠ tgt → (transitionTo c tgt now).1.episode = c.episode + 1) ∧
+    c.episode ≤ (reset c now).1.episode ∧
+    (c.st ≠ .closed → (reset c now).1.episode = c.episode + 1) := by
+  have tr : ∀ t, c.episode ≤ (transitionTo c t now).1.episode ∧
+      (c.st ≠ t → (transitionTo c t now).1.episode = c.episode + 1) := by
+    intro t
+    unfold transitionTo
+    by_cases h : c.st = t <;> simp [h, clearWindow]
+  exact ⟨(tr tgt).1, (tr tgt).2, (tr .closed).1, (tr .closed).2⟩
+
+/-- Cancelling a leftover — a call whose guard carries no episode or another one than the current —
+gives no slot back: the circuit is exactly as before. -/
+theorem leftover_drop_frees_nothing (s : State) (c : Nat) (r : Caller) (hne : r.ep ≠ some s.circ.episode) :
+    (dropRunning s c r).circ = s.circ := by
+  unfold dropRunning releaseTrial
+  simp only [emit_circ]
+  cases hep : r.ep with
+  | none => rfl
+  | some e =>
+    have hee : ¬ s.circ.episode = e := fun h => hne (by rw [hep, h])
+    simp [hee]
+
+/-- … so the caller arriving after a leftover was cancelled, with all slots of the current episode
+taken, is rejected like everybody else. -/
+theorem late_caller_rejected_after_leftover_drop (cfg : Cfg) (s : State) (c : Nat) (r : Caller) (f : Fresh)
+    (hne : r.ep ≠ some s.circ.episode) (hst : s.circ.st = .halfOpen) (hfull : ¬ s.circ.hoAdmitted < cfg.permitted) :
+    pollFresh cfg (dropRunning s c r) f = rejected cfg (dropRunning s c r) f :=
+  excess_rejected cfg _ f (by rw [leftover_drop_frees_nothing s c r hne]; exact hst)
+    (by rw [leftover_drop_frees_nothing s c r hne]; exact hfull)
+
+/-- A cancelled trial holds its slot until it has left the wrapped service. In the op language a caller
+that arrives while the cancelled trial's inner call is still being destroyed is `arrive c2; poll c2`
+placed BEFORE the `drop` (the harness's `manual ondrop`): with all slots taken it is rejected in that
+step, and neither the circuit nor the calls in flight change. -/
+theorem teardown_arrival_rejected (cfg : Cfg) (s : State) (c2 : Nat) (sc : Step) (tag : Nat) (fb : Step)
+    (hnew : s.seen.contains c2 = false) (hfr : findFresh s.fresh c2 = none)
+    (hst : s.circ.st = .halfOpen) (hfull : ¬ s.circ.hoAdmitted < cfg.permitted) :
+    stepS cfg (stepS cfg s (.arrive c2 sc tag fb)) (.poll c2)
+      = rejected cfg (stepS cfg s (.arrive c2 sc tag fb)) ⟨c2, sc, tag, fb⟩ ∧
+    (stepS cfg (stepS cfg s (.arrive c2 sc tag fb)) (.poll c2)).circ = s.circ ∧
+    (stepS cfg (stepS cfg s (.arrive c2 sc tag fb)) (.poll c2)).running = s.running := by
+  have h1 : stepS cfg s (.arrive c2 sc tag fb)
+      = { s with fresh := s.fresh ++ [{ c := c2, sc := sc, tag := tag, fb := fb }], seen := c2 :: s.seen } := by
+    simp only [stepS, hnew, Bool.false_eq_true, if_false]
+  have hff : findFresh (s.fresh ++ [{ c := c2, sc := sc, tag := tag, fb := fb }]) c2
+      = some { c := c2, sc := sc, tag := tag, fb := fb } := by
+    unfold findFresh at hfr ⊢
+    simp [List.find?_append, hfr]
+  rw [h1]
+  have h2 : stepS cfg { s with fresh := s.fresh ++ [{ c := c2, sc := sc, tag := tag, fb := fb }], seen := c2 :: s.seen } (.poll c2)
+      = pollFresh cfg { s with fresh := s.fresh ++ [{ c := c2, sc := sc, tag := tag, fb := fb }], seen := c2 :: s.seen }
+          { c := c2, sc := sc, tag := tag, fb := fb } := by
+    simp only [stepS, hff]
+  have key := excess_rejected cfg
+    { s with fresh := s.fresh ++ [{ c := c2, sc := sc, tag := tag, fb := fb }], seen := c2 :: s.seen }
+    { c := c2, sc := sc, tag := tag, fb := fb } hst hfull
+  rw [h2, key]
+  refine ⟨rfl, rejected_circ cfg _ _, ?_⟩
+  unfold rejected startFallback emit
+  split
+  · split <;> rfl
+  · rfl
+
+/-- Non-vacuity (`permitted = 1`, window 1): the breaker trips, half-opens, trial 2 stays in flight;
+`reset()`; it trips again, half-opens again, trial 4 takes the slot. Dropping the leftover 2 frees
+nothing: caller 5 is rejected. Caller 6 arrives during the tear-down of the cancelled trial 4 (before the
+drop): rejected; caller 7, after the drop, gets the slot. Four inner calls before 7, five with it. -/
+example :
+    let cfg : Cfg := { size := 1, minCalls := 1, waitMs := 10, permitted := 1 }
+    let pre := [Op.arrive 1 ⟨0, .err 1⟩ 0, .poll 1, .adv 10, .arrive 2 ⟨5000, .ok⟩ 0, .poll 2, .reset,
+                .arrive 3 ⟨0, .err 1⟩ 0, .poll 3, .adv 10, .arrive 4 ⟨500, .ok⟩ 0, .poll 4,
+                .drop 2, .arrive 5 ⟨0, .ok⟩ 0, .poll 5]
+    let td := pre ++ [.arrive 6 ⟨0, .ok⟩ 0, .poll 6, .drop 4]
+    (run cfg pre).circ.st = .halfOpen ∧ (run cfg pre).circ.hoAdmitted = 1 ∧ (run cfg pre).serial = 4 ∧
+    (run cfg pre).log.getLast? = some (10 + 10, CEv.result 5 .openCircuit) ∧
+    (run cfg td).serial = 4 ∧ (run cfg td).circ.hoAdmitted = 0 ∧
+    (run cfg (td ++ [.arrive 7 ⟨50, .ok⟩ 0, .poll 7])).serial = 5 ∧
+    (run cfg (td ++ [.arrive 7 ⟨50, .ok⟩ 0, .poll 7])).circ.hoAdmitted = 1 := by
+  decide
+
 /-- Non-vacuity: `permitted = 2`, four callers arrive together at a half-open breaker with slow
 trial calls: exactly two inner calls, two rejections; dropping one trial frees one slot. -/
 example :
